@@ -56,7 +56,12 @@ pub struct Knobs {
 }
 
 pub fn gen_knobs(rng: &mut Prng, focus: &str) -> Knobs {
-    let in_dim = *rng.pick(&[1usize, 2, 2, 2, 3, 3]);
+    gen_knobs_depth(rng, focus, false)
+}
+
+/// `deep` (thorough tier, every other run): larger dimension, longer histories, bigger trees.
+pub fn gen_knobs_depth(rng: &mut Prng, focus: &str, deep: bool) -> Knobs {
+    let in_dim = if deep { *rng.pick(&[2usize, 3, 3, 4, 4]) } else { *rng.pick(&[1usize, 2, 2, 2, 3, 3]) };
     let alphabet = *rng.pick(&[Alphabet::Unit, Alphabet::Small, Alphabet::Small, Alphabet::Halves, Alphabet::Quarters]);
     // base weights per focus, then each scaled by 0..3 so that some op kinds vanish in a run (swarm)
     let base: [usize; N_OPS] = match focus {
@@ -77,14 +82,14 @@ pub fn gen_knobs(rng: &mut Prng, focus: &str) -> Knobs {
     Knobs {
         in_dim,
         alphabet,
-        pool_size: 1 + rng.below(3),
-        hist_len: 2 + rng.below(7),
+        pool_size: 1 + rng.below(if deep { 4 } else { 3 }),
+        hist_len: if deep { 4 + rng.below(10) } else { 2 + rng.below(7) },
         op_weights,
         partial_pm: *rng.pick(&[0, 100, 300, 600]),
         degenerate_pm: *rng.pick(&[0, 100, 300, 500]),
         sparse_pm: *rng.pick(&[0, 300, 600]),
         pipeline_pm: *rng.pick(&[0, 0, 100, 300]),
-        node_cap: *rng.pick(&[60, 150, 300]),
+        node_cap: if deep { *rng.pick(&[300, 600, 900]) } else { *rng.pick(&[60, 150, 300]) },
     }
 }
 
